@@ -413,8 +413,10 @@ fn killonly_round(rt: &tokio::runtime::Runtime, rng: &mut Rng, cfg: &mut String)
     let run_mode = if rng.below(2) == 0 { 0 } else { 1 };
     // idle actors: the kill lands just as the actor finishes a message and goes back to sleep
     let after_msg = run_mode == 0 && rng.below(4) != 0;
+    // busy actors: two feeder threads keep the mailbox non-empty while the kill arrives
+    let feed = !after_msg && rng.below(2) == 0;
     let jitter = rng.below(3000);
-    *cfg = format!("killonly:k{k}:threads{threads}:run{run_mode}:{}", if after_msg { "as-it-goes-idle" } else { "any-time" });
+    *cfg = format!("killonly:k{k}:threads{threads}:run{run_mode}:{}", if after_msg { "as-it-goes-idle" } else if feed { "while-fed" } else { "any-time" });
     let mut actors = vec![];
     for _ in 0..k {
         let a = spawn_actor(rt, 2, run_mode, 0);
@@ -426,6 +428,27 @@ fn killonly_round(rt: &tokio::runtime::Runtime, rng: &mut Rng, cfg: &mut String)
     }
     let go = Gate::new();
     let mut hs = vec![];
+    let feeding = Arc::new(AtomicBool::new(true));
+    let mut feeders = vec![];
+    if feed {
+        for (r, _, _, _) in &actors {
+            for f in 0..2u32 {
+                let (r2, feeding, h2) = (r.clone(), feeding.clone(), rt.handle().clone());
+                feeders.push(std::thread::spawn(move || {
+                    let mut i = 0u32;
+                    while feeding.load(Ordering::Acquire) {
+                        let id = 10_000 * (f + 1) + i;
+                        let ok = if f == 0 { r2.blocking_tell(Item(id), None).is_ok() } else { h2.block_on(r2.tell(Item(id))).is_ok() };
+                        if !ok {
+                            break;
+                        }
+                        i += 1;
+                    }
+                }));
+            }
+        }
+        std::thread::sleep(Duration::from_micros(200));
+    }
     for (r, _, sh, _) in &actors {
         for _ in 0..threads {
             let (r2, go, sh2) = (r.clone(), go.clone(), sh.clone());
@@ -453,6 +476,10 @@ fn killonly_round(rt: &tokio::runtime::Runtime, rng: &mut Rng, cfg: &mut String)
             Err(_) => return bad("C06", "kill-panicked", "a thread calling kill() panicked".to_string()),
         }
     }
+    feeding.store(false, Ordering::Release);
+    for f in feeders {
+        let _ = f.join();
+    }
     for (i, (r, jh, sh, _tx)) in actors.into_iter().enumerate() {
         let res = join(rt, jh);
         drop(r);
@@ -461,7 +488,7 @@ fn killonly_round(rt: &tokio::runtime::Runtime, rng: &mut Rng, cfg: &mut String)
             Some(Err(e)) => return bad("C05", "result-wrong", format!("actor {i}: killed, no hook fails; JoinHandle reported {e}")),
             Some(Ok(res)) => {
                 let stops = sh.on_stop.lock().unwrap().clone();
-                let ctx = format!("actor {i} ({} on_run) was ended by kill() from {threads} thread(s); nobody called stop() and a strong handle was held until after the join", if run_mode == 1 { "re-arming" } else { "idle" });
+                let ctx = format!("actor {i} ({} on_run{}) was ended by kill() from {threads} thread(s); nobody called stop() and a strong handle was held until after the join", if run_mode == 1 { "re-arming" } else { "idle" }, if feed { ", two threads feeding it messages" } else { "" });
                 if stops != vec![true] && (!res.is_completed() || !res.was_killed()) {
                     also("C04", "on-stop-calls-wrong", format!("{ctx}: on_stop calls were {stops:?}, expected exactly one with killed=true"));
                 }
@@ -590,10 +617,12 @@ fn burst_round(rt: &tokio::runtime::Runtime, rng: &mut Rng, cfg: &mut String) ->
                     _ => false,
                 };
                 if !fine {
+                    let blocking_api = matches!(apis[t], Api::BTell | Api::BAsk | Api::DepTell | Api::DepAsk | Api::BTellT | Api::BAskT);
                     let (p, kind) = match o {
                         Outc::Reply(_) => ("C03", "wrong-reply"),
-                        Outc::Timeout => ("C17", "timeout-without-timeout"),
-                        _ => ("C17", "send-failed-on-live-actor"),
+                        Outc::Timeout => (if blocking_api { "C17" } else { "C10" }, "timeout-without-timeout"),
+                        // "a send into a full mailbox waits rather than failing" (C09); for the blocking API: C17
+                        _ => (if blocking_api { "C17" } else { "C09" }, "send-failed-on-live-actor"),
                     };
                     return bad(p, kind, format!("{:?} of message {id} to a live actor (capacity {cap}, {n} threads released together, never stopped) returned {o:?}", apis[t]));
                 }
@@ -1154,9 +1183,12 @@ fn photo_round(_rt: &tokio::runtime::Runtime, _rng: &mut Rng, cfg: &mut String) 
 /// again: the tick counter has to advance by 2 within 5 s (it normally takes 2 ms).
 fn rearm_round(rt: &tokio::runtime::Runtime, rng: &mut Rng, cfg: &mut String) -> Option<Bad> {
     let cap = [1usize, 2, 8, 64][rng.below(4) as usize];
-    let msgs = 5 + rng.below(16) as u32;
+    // back-to-back: the next message is sent the instant the previous one has been handled, i.e.
+    // just as the actor goes idle again; otherwise two ticks are awaited between messages
+    let back_to_back = rng.below(2) == 0;
+    let msgs = if back_to_back { 50 + rng.below(200) as u32 } else { 5 + rng.below(16) as u32 };
     let blocking = rng.below(4) != 0;
-    *cfg = format!("rearm:cap{cap}:msgs{msgs}:{}", if blocking { "blocking" } else { "async" });
+    *cfg = format!("rearm:cap{cap}:msgs{msgs}:{}:{}", if blocking { "blocking" } else { "async" }, if back_to_back { "back-to-back" } else { "spaced" });
     let (r, jh, sh, _tx) = spawn_actor(rt, cap, 2, 0);
     let h = rt.handle().clone();
     for i in 0..msgs {
@@ -1165,12 +1197,26 @@ fn rearm_round(rt: &tokio::runtime::Runtime, rng: &mut Rng, cfg: &mut String) ->
             return bad("C17", "send-failed-on-live-actor", format!("tell {i} to a live actor returned {o:?}"));
         }
         let t0 = Instant::now();
+        let ticks_at_accept = sh.ticks.load(Ordering::Acquire);
         // the message is handled first (C08), then the actor is idle again
         while !sh.handled.lock().unwrap().contains(&(10 + i)) {
+            // the tell has returned, so the message is waiting in the mailbox: on_run (1 ms per
+            // invocation) must not keep completing while it waits (one completion may overlap)
+            let now = sh.ticks.load(Ordering::Acquire);
+            if now >= ticks_at_accept + 4 && !sh.handled.lock().unwrap().contains(&(10 + i)) {
+                return bad("C08", "on-run-while-message-waiting", format!("message {i} of {msgs} ({}, mailbox capacity {cap}) had been accepted (the call had returned Ok) and was still unhandled while on_run completed {} more times", if blocking { "blocking_tell from an OS thread" } else { "tell" }, now - ticks_at_accept));
+            }
             if t0.elapsed() > Duration::from_secs(5) {
                 return bad("C01", "accepted-not-handled", format!("tell {i} returned Ok but the message was not handled within 5 s by an actor that is only ticking"));
             }
-            std::thread::sleep(Duration::from_micros(50));
+            if back_to_back {
+                std::hint::spin_loop();
+            } else {
+                std::thread::sleep(Duration::from_micros(50));
+            }
+        }
+        if back_to_back && i + 1 < msgs {
+            continue;
         }
         let base = sh.ticks.load(Ordering::Acquire);
         while sh.ticks.load(Ordering::Acquire) < base + 2 {
@@ -1218,16 +1264,31 @@ fn weakpin_round(rt: &tokio::runtime::Runtime, rng: &mut Rng, cfg: &mut String) 
     let weak = ActorRef::downgrade(&r);
     let ident = r.identity();
     let stop = Arc::new(AtomicBool::new(false));
+    // set just before the harness drops its reference: a typed upgrade that succeeds after that
+    // instant is kept, and the actor has to stay alive for as long as it is held
+    let dropping = Arc::new(AtomicBool::new(false));
     let go = Gate::new();
     let mut hs = vec![];
     for _ in 0..threads {
         let (w, stop, go) = (weak.clone(), stop.clone(), go.clone());
-        hs.push(std::thread::spawn(move || -> Result<(), String> {
+        let dropping = dropping.clone();
+        hs.push(std::thread::spawn(move || -> Result<Option<ActorRef<RaceActor>>, String> {
             let ctl: Box<dyn WeakActorControl> = (&w).into();
             let th: Box<dyn WeakTellHandler<Item>> = (&w).into();
             let ah: Box<dyn WeakAskHandler<Item, u64>> = (&w).into();
             go.wait();
             while !stop.load(Ordering::Acquire) {
+                if upgrading && form == 0 {
+                    if let Some(strong) = w.upgrade() {
+                        if strong.identity() != ident {
+                            return Err(format!("an upgraded handle reports identity {}, the actor is {ident}", strong.identity()));
+                        }
+                        if dropping.load(Ordering::Acquire) {
+                            return Ok(Some(strong));
+                        }
+                    }
+                    continue;
+                }
                 if upgrading {
                     let id = match form {
                         0 => w.upgrade().map(|r| r.identity()),
@@ -1266,13 +1327,14 @@ fn weakpin_round(rt: &tokio::runtime::Runtime, rng: &mut Rng, cfg: &mut String) 
                     return Err(format!("a weak handle reports identity {id}, the actor is {ident}"));
                 }
             }
-            Ok(())
+            Ok(None)
         }));
     }
     go.release(threads);
     for _ in 0..rng.below(2000) {
         std::hint::spin_loop();
     }
+    dropping.store(true, Ordering::Release);
     drop(r);
     let up = std::panic::catch_unwind(std::panic::AssertUnwindSafe(|| weak.upgrade()));
     let (pinned, own_panic) = match up {
@@ -1286,13 +1348,25 @@ fn weakpin_round(rt: &tokio::runtime::Runtime, rng: &mut Rng, cfg: &mut String) 
         }
         return bad("C11", "weak-handle-panicked", format!("ActorWeak::upgrade() panicked right after the last strong reference had been dropped, while {threads} other thread(s) were using a {form_name}"));
     }
+    let mut kept = vec![];
     for h in hs {
         match h.join() {
-            Ok(Ok(())) => {}
+            Ok(Ok(None)) => {}
+            Ok(Ok(Some(k))) => kept.push(k),
             Ok(Err(e)) => return bad("C11", "identity-mismatch", e),
             Err(_) => return bad(if form == 0 { "C11" } else { "C16" }, "weak-handle-panicked", format!("a thread calling {} on a {form_name} panicked while the last strong reference was being dropped on another thread", if upgrading { "upgrade()" } else { "is_alive / identity / clone" })),
         }
     }
+    if let Some(k) = kept.first() {
+        // a strong reference obtained by upgrade() while the harness was dropping its own: the actor
+        // must stay alive and serving for as long as it is held (nobody stopped or killed it)
+        let answer = rt.block_on(async { tokio::time::timeout(Duration::from_secs(10), k.ask(Item(7))).await });
+        let stops = sh.on_stop.lock().unwrap().clone();
+        if !matches!(answer, Ok(Ok(v)) if v == reply_of(7)) || !stops.is_empty() || jh.is_finished() {
+            return bad("C07", "ended-while-referenced", format!("a strong reference returned by ActorWeak::upgrade() (obtained on another thread while the previous last reference was being dropped) is held and nobody called stop() or kill(), yet: ask through it -> {answer:?}, on_stop calls so far {stops:?}, JoinHandle finished: {}", jh.is_finished()));
+        }
+    }
+    drop(kept);
     if pinned && !upgrading {
         return bad(if form == 0 { "C11" } else { "C16" }, "weak-handle-pins-actor", format!("the only strong reference of an idle actor (no message ever sent, on_start over) was dropped while {threads} other thread(s) were calling is_alive / identity / clone on a {form_name}; upgrade() right afterwards still returned a live reference - something other than a strong handle was keeping the actor alive"));
     }
@@ -1426,7 +1500,7 @@ pub fn kinds_for(prop: &str) -> &'static [&'static str] {
         "C07" => &["drop", "stop", "weakpin"],
         "C11" | "C16" => &["weakpin"],
         "C08" => &["rearm"],
-        "C09" => &["parked"],
+        "C09" => &["parked", "burst"],
         "C10" => &["parked", "hot"],
         "C13" => &["photo"],
         "C14" => &["ring"],
@@ -1438,7 +1512,7 @@ pub fn kinds_for(prop: &str) -> &'static [&'static str] {
 }
 
 fn reports(host: &str, clause: &str) -> bool {
-    host == clause || (host == "C17" && matches!(clause, "C01" | "C02" | "C03" | "C10")) || (host == "C07" && matches!(clause, "C01" | "C04" | "C05" | "C11" | "C16"))
+    host == clause || (host == "C17" && matches!(clause, "C01" | "C02" | "C03" | "C09" | "C10")) || (host == "C07" && matches!(clause, "C01" | "C04" | "C05" | "C11" | "C16"))
         || (host == "C16" && clause == "C11")
 }
 
